@@ -242,6 +242,30 @@ func main() {
 		o.Set("gw.incrEmptyAsZero", aIncr, fmt.Sprint(guard || trim), ib != nil, "true")
 	}
 	{
+		// gw.overflowCheck: IncrBy compares against the int64 limits *before* adding:
+		//   if delta > 0 && current > math.MaxInt64-delta { return errOverflow }
+		//   if delta < 0 && current < math.MinInt64-delta { return errOverflow }
+		//   result = current + delta
+		// Any other way of detecting overflow is an unknown shape.
+		pos, neg := false, false
+		if ib != nil {
+			for _, c := range be.IfWithBodyContaining(ib.Body, "return errOverflow") {
+				switch c {
+				case "delta > 0 && current > math.MaxInt64-delta":
+					pos = true
+				case "delta < 0 && current < math.MinInt64-delta":
+					neg = true
+				}
+			}
+		}
+		iPos := strings.Index(ibSrc, "current > math.MaxInt64-delta")
+		iNeg := strings.Index(ibSrc, "current < math.MinInt64-delta")
+		iAdd := strings.Index(ibSrc, "result = current + delta")
+		nOv := strings.Count(ibSrc, "errOverflow")
+		okShape := pos && neg && iAdd > iPos && iAdd > iNeg && nOv == 2 && strings.Count(ibSrc, "current + delta") == 1
+		o.Set("gw.overflowCheck", aIncr, "range-before-add", okShape, "range-before-add")
+	}
+	{
 		// integers parsed with strconv.ParseInt(…, 10, 64) everywhere
 		n := strings.Count(exSrc, "strconv.ParseInt(string(args[2]), 10, 64)")
 		lax := n == 2 && strings.Contains(esSrc, "strconv.ParseInt(string(args[i+1]), 10, 64)") &&
